@@ -955,7 +955,12 @@ class Evaluator(object):
             if isinstance(v, ast.Constant):
                 parts.append(Str(str(v.value)))
             else:
-                parts.append(self.eval(v.value, env, func))
+                pv = self.eval(v.value, env, func)
+                if isinstance(pv, Rat) and v.format_spec is None and v.conversion == -1 and not getattr(self, 'const_as_float', False):
+                    fr = pv.as_fraction()
+                    if fr is not None and fr.denominator == 1:
+                        pv = Str(str(int(fr)))      # an integer constant prints as its digits (same policy as str())
+                parts.append(pv)
         if all(isinstance(p, Str) for p in parts):
             return Str(''.join(p.s for p in parts))
         return alg.opaque('fstring', tuple(argkey(p) for p in parts))
@@ -1040,6 +1045,9 @@ class Evaluator(object):
                 if isinstance(op, ast.Mult):
                     return alg.define(a * b)
                 if isinstance(op, ast.Div):
+                    if not b.is_const() and len(DIV_EVENTS) < 20000:
+                        # remembered for the division rule: which construct divides by what, on which path
+                        DIV_EVENTS.append((self._stack[-1] if self._stack else None, node, b, tuple(self._path), self))
                     return alg.define(a / b)
                 if isinstance(op, ast.Pow):
                     return alg.define(alg.power(a, b))
@@ -1205,6 +1213,11 @@ class Evaluator(object):
             k = _const_int(idx)
             if k is not None and -len(o.s) <= k < len(o.s):
                 return Str(o.s[k])
+            if isinstance(idx, SliceV):
+                b = [None if x is None or isinstance(x, NoneV) else _const_int(x) for x in (idx.lo, idx.hi, idx.step)]
+                raw = (idx.lo, idx.hi, idx.step)
+                if all(bb is not None or r is None or isinstance(r, NoneV) for bb, r in zip(b, raw)):
+                    return Str(o.s[slice(b[0], b[1], b[2])])
         return self.unknown('subscript of %s' % type(o).__name__, node)
 
     def e_ListComp(self, e, env, func):
@@ -1912,6 +1925,7 @@ class _ModuleScope(object):
 
 COND_NAMES = {'lt', 'le', 'gt', 'ge', 'eq', 'ne', 'and', 'or', 'not', 'in', 'notin', 'truthy', 'isinstance'}
 
+DIV_EVENTS = []      # (function, node, denominator form, branch conditions) of every true division by a non-constant met by any evaluator
 INPLACE_EVENTS = []  # (function, statement, kind, array, value): in-place updates of arrays whose dtype follows the caller's numbers
 
 
